@@ -124,6 +124,31 @@ CHECKS = {
     text="FedRoute.tla: 3 nodes, local subscriptions (plain, wildcard, shared, $), converged mirrored views; invariants ForwardedIffNeeded, NoEcho, GroupOnceFederationWide, RetainedEverywhere checked by TLC; every publication transition is replayed on real "
          "Federation objects: the set of peers the message is queued for, the local delivery options, what each receiver delivers and the retained-store effect are compared with the specification.",
     note="Three open known findings (share group spanning nodes: starved / served twice / retained served per node) - structural (the Message event carries no group information). Views are assumed converged (C16 covers convergence)."),
+ "C15": dict(
+    level="model_checking", ref="DESIGN.md §4 C15, App. B.4, §6",
+    technique="TLC model check of Conn.tla (PlusCal model of one connection's goroutines, channels, locks and Stop; guard constants extracted from the source by go/ast at check time); TLC behaviours converted into scripts and run on real brokers under watchdogs; trace validation of lifecycle hook events of free-running storms against TraceConn.tla",
+    text="Conn.tla models readLoop / writeLoop / serve / pollMessages / readHandle, setError with sync.Once, bounded channels, socket state, srv.mu and Stop, with unfair peers (never reading, never closing). TLC checks on packs of the model: "
+         "deadlock freedom, StopCalled ~> StopReturned, SockClosed ~> ClosedSignalled, nothing alive after Stop returned, Unload/OnStop exactly once, Responsive, OneRegistered, with the constants the check extracts from the current source. "
+         "For every named deviation the stuck state is searched in the faithful model and the shortest behaviour reaching it becomes a script executed on a real broker (request answered or connection closed within 2 s, closed event after a socket close, "
+         "Stop returns within 3 s, hooks once, goroutine profile empty after Stop); a fixed regression library and storms (simultaneous connects, take-overs, stalled peers, Stop in the middle) run the same way, the storms on a -race build, "
+         "and their lifecycle events are validated by TLC against TraceConn.tla.",
+    note="'No data race' is NOT decided by the specification (DESIGN.md §6): the Go race detector observes the storm executions only. One open known finding (delayed-will goroutine outlives Stop). Model fidelity of guards is kept by the go/ast extraction; the rest of Conn.tla is hand-written."),
+ "C09": dict(
+    level="fault_enumeration", ref="DESIGN.md §4 C09",
+    technique="TLC model check of Durable.tla (crash between any two storage commands + recovery); trace validation of the storage-command journal of a RESP server (real broker, persistence=redis) against TraceDurable.tla; a new real broker restarted on every journal prefix and compared with the specification's required state",
+    text="Durable.tla: durable keys (session, sub, queue, unack), volatile state, every broker operation as the sequence of storage commands it must issue, Crash between any two commands, Recover = start-up; TLC checks RecoverableAfterCrash / StartupTotal for the demanded "
+         "command order (and, thorough, that each as-coded deviation violates it). Seeded client histories (persistent and clean sessions, client ids with awkward prefixes, plain / wildcard / shared / $ filters with options, QoS 0/1/2 both directions, partial QoS2 exchanges, "
+         "unsubscribes, session ends, reuse of client ids) run against a real broker on the in-process RESP server; TraceDurable.tla explains the journal + acknowledgement markers and yields the required state per prefix; a NEW broker is started on EVERY prefix "
+         "and must start, hold every acknowledged session and subscription (with options), not serve removed ones, redeliver acknowledged unacked QoS>0 messages on resume, and recognise QoS2 ids awaiting PUBREL.",
+    note="Crash = the store keeps exactly a prefix of the journalled commands (no torn command). Real redis is not available: the RESP fake is trusted and itself checked against RespCmds.tla (C10 tier). quick: every prefix of 24 histories; thorough: of 200."),
+ "C20": dict(
+    level="model_checking", ref="DESIGN.md §4 C20",
+    technique="TLC model check of Stats.tla conservation invariants over StatsEnv.tla event sequences; trace validation of wire + hook traces with statistics snapshots against TraceStats.tla (every snapshot field must equal the specification's value)",
+    text="Stats.tla defines every counter and gauge as a function of the event history (packets/bytes per type in and out, messages per QoS received/sent/dropped per reason, queued / in-flight gauges = queue contents, session and connection gauges and totals, "
+         "global = sum of live per-client records + what ended sessions had accumulated); TLC checks the conservation invariants on all event sequences up to 6 (8) events. Binding: seeded workloads on real brokers (all packet types, QoS 0/1/2 both directions, manual acks, "
+         "small windows, offline queueing, resume, take-over, clean start over a stored session, TerminateSession, abort, one family per drop reason, AUTH); at every quiescent point the StatsReader snapshot (global and every client id) is compared field by field with "
+         "what TraceStats.tla computes from the recorded trace (byte sizes are those the independent client wrote / read).",
+    note="Snapshots at barriers + settle; mismatches must reproduce in slow mode. Subscription statistics are C02's. Memory persistence only; refused connections and broker-sent AUTH not exercised. thorough adds the 20 s expiry sweep and the 30 s in-flight expiry."),
 }
 
 NOT_YET = {
